@@ -5,6 +5,7 @@ import (
 	"go/parser"
 	"go/token"
 	"go/types"
+	"strings"
 
 	"golang.org/x/tools/go/ssa"
 	"golang.org/x/tools/go/ssa/ssautil"
@@ -842,4 +843,131 @@ func cellCases(load *ssa.UnOp) []cellCase {
 		out = append(out, cellCase{s.Val, facts, sb})
 	}
 	return out
+}
+
+// ---------------------------------------------------------------- function values with their environment
+
+// FuncVal is a function value reaching a use together with a way to express the values it reads from its
+// environment in the frame of the function that created it: a closure (free variables → bindings), a
+// named function (no environment), a bound method value `T{...}.m` (fields of the receiver → the values
+// the receiver was built from), or the result of a closure factory.
+type FuncVal struct {
+	Fn   *ssa.Function
+	recv ssa.Value            // bound receiver (method values)
+	bind map[string]ssa.Value // free variable name → binding
+}
+
+// ResolveFuncValue finds the function a value denotes (nil if unknown).
+func ResolveFuncValue(p *Prog, v ssa.Value) *FuncVal {
+	v = Resolve(v)
+	switch x := v.(type) {
+	case *ssa.Function:
+		return &FuncVal{Fn: Origin(x)}
+	case *ssa.MakeClosure:
+		fn := x.Fn.(*ssa.Function)
+		if strings.HasSuffix(fn.Name(), "$bound") || strings.Contains(fn.Synthetic, "bound method") {
+			// bound method wrapper: calls the method with its single free variable as receiver
+			var target *ssa.Function
+			Instrs(fn, func(ins ssa.Instruction) {
+				if call, ok := ins.(*ssa.Call); ok {
+					if g := Callee(&call.Call); g != nil {
+						target = g
+					}
+				}
+			})
+			if target == nil || len(x.Bindings) != 1 {
+				return nil
+			}
+			return &FuncVal{Fn: target, recv: x.Bindings[0]}
+		}
+		if bc := ResolveClosure(p, x); bc != nil {
+			return &FuncVal{Fn: bc.Fn, bind: bc.Bind}
+		}
+	case *ssa.Call:
+		if bc := ResolveClosure(p, x); bc != nil {
+			return &FuncVal{Fn: bc.Fn, bind: bc.Bind}
+		}
+	}
+	return nil
+}
+
+// Outer maps a value used inside fv.Fn to the value it denotes in the creating function: a load of a free
+// variable to its binding, a field of the bound receiver to the value stored into that field when the
+// receiver was built (composite literal); other values are returned resolved but unchanged.
+func (fv *FuncVal) Outer(v ssa.Value) ssa.Value {
+	v = Resolve(v)
+	switch x := v.(type) {
+	case *ssa.UnOp:
+		if x.Op == token.MUL {
+			if f, ok := x.X.(*ssa.FreeVar); ok && fv.bind != nil {
+				if b := fv.bind[f.Name()]; b != nil {
+					return b
+				}
+			}
+			if fa, ok := x.X.(*ssa.FieldAddr); ok && fv.recv != nil && len(fv.Fn.Params) > 0 {
+				if Resolve(fa.X) == ssa.Value(fv.Fn.Params[0]) || isSpillOf(fa.X, fv.Fn.Params[0]) {
+					if b := literalField(fv.recv, fa.Field); b != nil {
+						return b
+					}
+				}
+			}
+		}
+	case *ssa.FreeVar:
+		if fv.bind != nil {
+			if b := fv.bind[x.Name()]; b != nil {
+				return b
+			}
+		}
+	case *ssa.Field:
+		if fv.recv != nil && len(fv.Fn.Params) > 0 && Resolve(x.X) == ssa.Value(fv.Fn.Params[0]) {
+			if b := literalField(fv.recv, x.Field); b != nil {
+				return b
+			}
+		}
+	}
+	return v
+}
+
+// isSpillOf: a is the local cell a value receiver was spilled into.
+func isSpillOf(a ssa.Value, prm *ssa.Parameter) bool {
+	al, ok := a.(*ssa.Alloc)
+	if !ok {
+		return false
+	}
+	st := Stores(al)
+	return len(st) == 1 && st[0].Val == ssa.Value(prm)
+}
+
+// literalField returns the value stored into field i of the composite literal that recv was loaded from.
+func literalField(recv ssa.Value, i int) ssa.Value {
+	for d := 0; d < 4; d++ {
+		switch x := recv.(type) {
+		case *ssa.UnOp:
+			if x.Op != token.MUL {
+				return nil
+			}
+			recv = x.X
+			continue
+		case *ssa.MakeInterface:
+			recv = x.X
+			continue
+		case *ssa.Alloc:
+			var val ssa.Value
+			n := 0
+			for _, r := range *x.Referrers() {
+				if fa, ok := r.(*ssa.FieldAddr); ok && fa.Field == i {
+					for _, st := range Stores(fa) {
+						val = st.Val
+						n++
+					}
+				}
+			}
+			if n == 1 {
+				return Resolve(val)
+			}
+			return nil
+		}
+		return nil
+	}
+	return nil
 }
